@@ -27,6 +27,9 @@ pub struct Ctx {
     pub corpus: String,
     /// free-form switches (e.g. "events=PATH")
     pub opts: BTreeMap<String, String>,
+    /// wall-clock budget per workload in seconds (sanitizer slices only): when it is used up no further
+    /// case of that workload is started. Only the *volume* explored depends on it, never a verdict.
+    pub budget_s: Option<f64>,
 }
 
 impl Ctx {
@@ -87,7 +90,7 @@ impl Violation {
     }
 }
 
-const MAX_VIOLATIONS: usize = 40;
+const MAX_VIOLATIONS: usize = 60;
 const MAX_SAMPLES: usize = 6;
 const DISTINCT_CAP: usize = 2_000_000;
 
@@ -106,6 +109,7 @@ pub struct Local {
     pub unspecified: u64,
     pub cur_workload: u64,
     pub cur_index: u64,
+    pub harness_errors: Vec<String>,
 }
 
 impl Local {
@@ -140,7 +144,9 @@ impl Local {
     }
     pub fn violation(&mut self, what: &str, input: String, expected: String, observed: String) {
         self.violations_total += 1;
-        if self.violations.len() < MAX_VIOLATIONS {
+        // keep a few witnesses of every distinct kind, so a frequent kind cannot hide a rare one
+        let same_kind = self.violations.iter().filter(|v| v.what == what).count();
+        if self.violations.len() < MAX_VIOLATIONS && same_kind < 12 {
             self.violations.push(Violation {
                 what: what.to_string(),
                 workload: self.cur_workload,
@@ -201,11 +207,17 @@ impl Report {
         }
         m.violations_total += l.violations_total;
         for v in l.violations {
-            if m.violations.len() < MAX_VIOLATIONS {
+            let same_kind = m.violations.iter().filter(|x| x.what == v.what).count();
+            if m.violations.len() < MAX_VIOLATIONS && same_kind < 12 {
                 m.violations.push(v);
             }
         }
         m.unspecified += l.unspecified;
+        for e in l.harness_errors {
+            if self.inconclusive.len() < 5 {
+                self.inconclusive.push(e);
+            }
+        }
     }
 
     pub fn to_json(&self, ctx: &Ctx, wall_s: f64) -> Json {
@@ -283,11 +295,15 @@ where
         rep.merge(l);
         return;
     }
-    let threads = ctx.threads.max(1).min(n.max(1) as usize);
+    if n == 0 {
+        return;
+    }
+    let threads = ctx.threads.max(1).min(n as usize);
     let next = AtomicU64::new(0);
     // chunked dynamic scheduling: cases are independent, results merged after join
-    let chunk = (n / (threads as u64 * 16)).clamp(1, 4096);
+    let chunk = if ctx.budget_s.is_some() { 1 } else { (n / (threads as u64 * 16)).clamp(1, 4096) };
     let results: Mutex<Vec<Local>> = Mutex::new(Vec::new());
+    let started = std::time::Instant::now();
     std::thread::scope(|s| {
         for _ in 0..threads {
             s.spawn(|| {
@@ -297,6 +313,12 @@ where
                     let start = next.fetch_add(chunk, Ordering::Relaxed);
                     if start >= n {
                         break;
+                    }
+                    if let Some(b) = ctx.budget_s {
+                        if start > 0 && started.elapsed().as_secs_f64() > b {
+                            l.class("slice_budget_reached_(workload_cut_short)");
+                            break;
+                        }
                     }
                     let end = (start + chunk).min(n);
                     for i in start..end {
@@ -339,10 +361,18 @@ where
 {
     let r = catch_unwind(AssertUnwindSafe(|| f(l, rng, i)));
     if r.is_err() {
-        crate::facade::PANICS.fetch_add(1, Ordering::Relaxed);
         let msg = take_panic_msg();
-        l.class("panic_caught");
-        l.violation("panic during monitored case", format!("workload {} case {}", l.cur_workload, i), "no panic: every failure is a returned error".into(), msg);
+        // location of the panic: harness sources are compiled from relative paths ("src/..."), tz-rs (a path
+        // dependency outside the workspace) and std from absolute ones. A panic of the harness itself is a
+        // harness defect: inconclusive, never a violation.
+        let in_harness = msg.split("panicked at ").nth(1).map(|r| r.starts_with("src/")).unwrap_or(false);
+        if in_harness {
+            l.harness_errors.push(format!("harness panic in workload {} case {}: {}", l.cur_workload, i, msg.replace('\n', " ")));
+        } else {
+            crate::facade::PANICS.fetch_add(1, Ordering::Relaxed);
+            l.class("panic_caught");
+            l.violation("panic during monitored case", format!("workload {} case {}", l.cur_workload, i), "no panic: every failure is a returned error".into(), msg);
+        }
     }
     for (what, input, expected, observed) in crate::facade::take_side() {
         l.violation(&what, input, expected, observed);
